@@ -197,8 +197,38 @@ pub fn gen_case(rng: &mut Rng, thorough: bool) -> GenAf {
         // mostly 12-30 (60) arguments; one in five is a long structure of 65-160 arguments (chains with a few extra
         // attacks and two-cycles): ids above 64, long propagation chains, a big grounded class
         let long = rng.chance(1, 5);
+        let hub = !long && rng.chance(1, 8);
         let n = if long { rng.range(65, 160) } else { rng.range(12, if thorough { 60 } else { 30 }) };
-        let g = if long {
+        let g = if hub {
+            // a HUB: one argument with 250-300 attackers (counters, masks and tables indexed by the number of attackers
+            // of ONE argument), guarded by 1-3 arguments that attack the attackers and sit in two-cycles, plus a few
+            // further attackers of the hub that are not defeated together with the others
+            let k = rng.range(250, 300);
+            let guards = rng.range(1, 3);
+            let extra = rng.below(3);
+            // ids: 0 hub, 1..=k attackers, then guards g_j with partners z_j, then extra attackers y_j with partners w_j
+            let mut atts: Vec<(usize, usize)> = Vec::new();
+            let gbase = k + 1;
+            let ybase = gbase + 2 * guards;
+            let n = ybase + 2 * extra;
+            for i in 1..=k {
+                atts.push((i, 0));
+                atts.push((gbase + 2 * (i % guards), i));
+            }
+            for j in 0..guards {
+                let (gd, z) = (gbase + 2 * j, gbase + 2 * j + 1);
+                atts.push((gd, z)); atts.push((z, gd));
+                if rng.chance(1, 2) { atts.push((0, z)); }
+            }
+            for j in 0..extra {
+                let (y, w) = (ybase + 2 * j, ybase + 2 * j + 1);
+                atts.push((y, 0)); atts.push((y, w)); atts.push((w, y));
+            }
+            let mut perm: Vec<usize> = (0..n).collect();
+            if rng.chance(1, 2) { rng.shuffle(&mut perm); }
+            for p in atts.iter_mut() { *p = (perm[p.0], perm[p.1]); }
+            GenAf { build: Build::Iccma(n, atts), recipe: "large" }
+        } else if long {
             let mut atts: Vec<(usize, usize)> = (0..n - 1).filter(|i| i % 17 != 16).map(|i| (i, i + 1)).collect();
             for _ in 0..rng.below(6) { let a = rng.below(n); let b = rng.below(n); atts.push((a, b)); }
             for _ in 0..rng.below(4) { let a = rng.below(n - 1); atts.push((a + 1, a)); }
